@@ -229,3 +229,90 @@ def is_atomic_node(F, fn, n, field=None, ops=None):
 
 def fmt_site(ev):
     return short_loc(ev.get("loc", ""))
+
+
+# ---------------------------------------------------------------------------------------------
+# functor invocations (user bodies) and generic helpers used by several properties
+# ---------------------------------------------------------------------------------------------
+def functor_root(e):
+    """For a call-operator invocation: the variable being invoked, through std::move/forward, derefs
+    and one level of generator call (gen(i)()). Returns (var_node, via_generator: bool) or (None, _)."""
+    e = strip_move(e)
+    via = False
+    for _ in range(4):
+        if not isinstance(e, dict):
+            return None, via
+        k = e.get("k")
+        if k == "var":
+            return e, via
+        if k == "un" and e.get("op") == "*":
+            e = strip_move(e.get("e"))
+            continue
+        if k == "call" and e.get("opcall") == "()" and e.get("obj") is not None:
+            via = True
+            e = strip_move(e.get("obj"))
+            continue
+        if k == "member":
+            return e, via
+        return None, via
+    return None, via
+
+
+def body_invocations(fn, var_kinds=("param", "initcapture", "captured", "local")):
+    """Call-operator invocations 'f()' / 'gen(i)()' whose callee object is a variable of this
+    function (parameter, by-value capture, init-capture) and whose result is void, i.e. the sites
+    where a user body / task starts executing. Returns [(pos, ev, var_node, via_generator)]."""
+    out = []
+    for pos, ev in fn.events():
+        if ev.get("k") != "call" or ev.get("opcall") != "()":
+            continue
+        if ev.get("type") not in ("void",):
+            continue
+        root, via = functor_root(ev.get("obj"))
+        if root is None:
+            continue
+        if root.get("k") == "var":
+            vk = root.get("vk")
+            kind = "captured" if root.get("captured") else vk
+            if kind in var_kinds or vk in var_kinds:
+                out.append((pos, ev, root, via))
+        elif root.get("k") == "member" and "member" in var_kinds:
+            out.append((pos, ev, root, via))
+    return out
+
+
+def loops_of(fn):
+    return {l["id"]: l for l in fn.raw.get("loops", [])}
+
+
+def loop_chain(fn, lid):
+    ls = loops_of(fn)
+    out = []
+    while lid:
+        out.append(lid)
+        lid = ls.get(lid, {}).get("parent", 0)
+    return out
+
+
+def guard_in_same_iteration(fn, site_ev, guard_block):
+    """True if the branch at guard_block is evaluated in every iteration of the innermost loop that
+    lexically contains the site (or the site is in no loop)."""
+    sl = site_ev.get("loop")
+    if not sl:
+        return True
+    t = fn.term(guard_block) or {}
+    gl = t.get("inloop") or t.get("loop")
+    if not gl:
+        return False
+    return sl in loop_chain(fn, gl)
+
+
+def callers_of(F, qname_regex):
+    """[(caller_fn, pos, ev)] for every call event in scope whose callee matches."""
+    rx = re.compile(qname_regex) if isinstance(qname_regex, str) else qname_regex
+    out = []
+    for fn in F.fns:
+        for pos, ev in fn.events():
+            if ev.get("k") in ("call", "construct") and ev.get("callee") and rx.search(ev["callee"]):
+                out.append((fn, pos, ev))
+    return out
